@@ -501,6 +501,8 @@ def gen_c09(rng, fs, i, cfg):
         return ctx["pending"].pop(0)
     if ctx["stage"] == 2:
         ctx["stage"] = 3
+        if "bases" not in ctx:
+            return None
         bases = list(ctx["bases"])
         rng.shuffle(bases)
         res = []
